@@ -72,13 +72,17 @@ def _project(grid, raised, name=None, flags=None):
     return rec, ok
 
 
-def run_history(hist, dims=1):
+def run_history(hist, dims=1, forms=0):
     """hist[0] = constructor arguments; the rest = calls.  Values are Fractions / ints / None per dimension
-    (a scalar is broadcast by the class itself).  Returns (trace, exact_flag) or None if the constructor raises."""
+    (a scalar is broadcast by the class itself).  Returns (trace, exact_flag) or None if the constructor raises.
+    forms != 0: every numeric argument is handed over in another form (NumPy scalar, 0-d array, list for tuple, ndarray) - same value."""
     from abtem.core.grid import Grid
+    from ..forms import reform
 
     h0 = hist[0]
-    kw = dict(extent=h0["e"], gpts=h0["g"], sampling=h0["s"], dimensions=dims, endpoint=h0["endp"],
+    forms = forms or int(h0.get("forms", 0))
+    fm = (lambda v, i: reform(v, forms + i)) if forms else (lambda v, i: v)
+    kw = dict(extent=fm(h0["e"], 0), gpts=fm(h0["g"], 1), sampling=fm(h0["s"], 2), dimensions=dims, endpoint=h0["endp"],
               lock_extent=h0["lockE"], lock_gpts=h0["lockG"], lock_sampling=h0["lockS"])
     with warnings.catch_warnings():
         warnings.simplefilter("ignore")
@@ -90,17 +94,22 @@ def run_history(hist, dims=1):
         flags = {"lockE": bool(h0["lockE"]), "lockG": bool(h0["lockG"]), "lockS": bool(h0["lockS"]), "endp": endp}
         rec, ok = _project(grid, False, "Init", flags)
         trace = [rec]
-        for step in hist[1:]:
+        for n_step, step in enumerate(hist[1:]):
             raised = False
             try:
                 if step["a"] == "SetExtent":
-                    grid.extent = step["arg"]
+                    grid.extent = fm(step["arg"], 3 + n_step)
                 elif step["a"] == "SetExtentNone":
                     grid.extent = None
                 elif step["a"] == "SetGpts":
-                    grid.gpts = step["arg"]
+                    grid.gpts = fm(step["arg"], 3 + n_step)
                 elif step["a"] == "SetSampling":
-                    grid.sampling = step["arg"]
+                    grid.sampling = fm(step["arg"], 3 + n_step)
+                elif step["a"] == "Copy":
+                    from ..routes import reroute
+                    grid = reroute(grid, int(step["arg"]))[0]
+                elif step["a"] == "Match":
+                    grid.match(Grid(extent=step["arg"][0], gpts=step["arg"][1], dimensions=dims, endpoint=False))
                 else:
                     raise Machinery("unknown action " + step["a"])
             except Machinery:
@@ -150,8 +159,15 @@ def fuzz_history(rng: random.Random, maxlen=6):
     h = [{"e": opt(lambda: rv(1, 20)), "g": opt(lambda: rng.randint(2, 24)), "s": opt(lambda: rv(0.1, 2)),
           "endp": endp, "lockE": rng.random() < 0.25, "lockG": rng.random() < 0.25, "lockS": rng.random() < 0.25}]
     for _ in range(rng.randint(1, maxlen)):
-        a = rng.choice(["SetExtent", "SetGpts", "SetSampling", "SetExtent", "SetGpts", "SetSampling", "SetExtentNone"])
-        if a == "SetExtent":
+        a = rng.choice(["SetExtent", "SetGpts", "SetSampling", "SetExtent", "SetGpts", "SetSampling", "SetExtentNone", "Copy", "Match"])
+        if a == "Copy":
+            # the grid is replaced by a copy / deepcopy / pickle round trip of itself: nothing changes, the locks stay
+            h.append({"a": a, "arg": rng.randint(1, 3)})
+        elif a == "Match":
+            # grid.match(other) with a fully defined grid without end points (a wave function / potential grid)
+            g = per_dim(lambda: rng.randint(2, 24))
+            h.append({"a": a, "arg": [per_dim(lambda: rv(1, 20)), g]})
+        elif a == "SetExtent":
             h.append({"a": a, "arg": per_dim(lambda: rv(1, 20))})
         elif a == "SetGpts":
             h.append({"a": a, "arg": per_dim(lambda: rng.randint(1, 24))})
@@ -308,8 +324,9 @@ def run(ctx: Ctx):
         ctx.case(js, nontrivial=len(t) > 1)
         items.append((h, 1, t))
     # the same behaviours on a 2-D grid (scalar arguments are broadcast by the class)
-    for js in list(beh)[:: (7 if quick else 3)]:
+    for n_b, js in enumerate(list(beh)[:: (7 if quick else 3)]):
         h = hist_from_tlc(json.loads(js))
+        h[0]["forms"] = n_b % 5          # argument forms: NumPy scalars, 0-d arrays, ... (0 = as given)
         out = run_history(h, 2)
         if out is None:
             continue
@@ -321,6 +338,7 @@ def run(ctx: Ctx):
     rng = random.Random(ctx.seed)
     for i in range(1500 if quick else 60000):
         h, dims = fuzz_history(rng)
+        h[0]["forms"] = i % 5 if i % 2 else 0
         out = run_history(h, dims)
         if out is None:
             continue
